@@ -363,6 +363,49 @@ def unusual_invocations(chk):
             chk.coverage["traces_validated_against_impl"] += 2
 
 
+def recorded_versions_are_not_explored(chk):
+    """gc's walk stops at a recorded version: whatever a successful experiment wrote INSIDE its output directory is its
+    recorded output -- also a sub-directory that happens to be named like an experiment output (`cp -r "$COND_DEPS"
+    "$COND_OUT"/` copies `base.task.<ts>`; a nested Conductor project; an unpacked archive).  After `cond gc` every
+    recorded version's tree is byte-for-byte what it was, and the failed experiment's output is gone.  (Seed C06/l: the
+    walk descended into recorded versions and removed the look-alike directories inside them.)"""
+    files = {"COND": 'run_experiment(name="base", run="echo b > $COND_OUT/data; mkdir $COND_OUT/sub; echo s > $COND_OUT/sub/x")\n'
+                     'run_experiment(name="report", run="cp -r $COND_DEPS $COND_OUT/; mkdir -p $COND_OUT/nested/fake.task.123; echo n > $COND_OUT/nested/fake.task.123/f", deps=[":base"])\n'
+                     'run_experiment(name="flaky", run="echo partial > $COND_OUT/p; exit 3")\n'
+                     'group(name="all", deps=[":report", ":flaky"])\n'}
+    root = implrun.make_project(files)
+    r = implrun.run_cond(["run", "//:all"], root)
+    out = os.path.join(root, "cond-out")
+    rows = implrun.index_rows(root)
+    recorded = {"%s.task.%d" % (t[3:], ts) for t, ts, _c, _d in rows}
+    present = {d for d in os.listdir(out) if ".task." in d}
+    if r.code == 0 or len(rows) != 2 or len(present) != 3:
+        chk.violation("correspondence", "harness: recorded_versions_are_not_explored: unexpected set-up: exit %s rows %r dirs %r" % (r.code, rows, sorted(present)), {"theorem_or_tie": "scenario set-up"}, found_input=False)
+        return
+    before = {d: implrun.tree_snapshot(os.path.join(out, d)) for d in recorded}
+    inner = [k for d in recorded for k in before[d] if ".task." in os.path.basename(k)]
+    g = implrun.run_cond(["gc", "-v"], root)
+    after = {d: (implrun.tree_snapshot(os.path.join(out, d)) if os.path.isdir(os.path.join(out, d)) else None) for d in recorded}
+    chk.coverage["evaluations"] += 1
+    chk.count("gc-scope", "recorded version holding %d look-alike directories" % len(inner))
+    problems = []
+    for d in sorted(recorded):
+        if after[d] != before[d]:
+            gone = sorted(set(before[d]) - set(after[d] or {}))
+            problems.append("the recorded version %s was changed by `cond gc`: %d entries are gone (first: %r)" % (d, len(gone), gone[:2]))
+    left = sorted(d for d in os.listdir(out) if ".task." in d and d not in recorded)
+    if g.code != 0 or left:
+        problems.append("`cond gc -v` exited %s and left the unrecorded outputs %r" % (g.code, left))
+    if not inner:
+        problems.append("harness: the recorded version holds no look-alike directory")
+    for msg in problems[:2]:
+        chk.violation("impl-violation", "gc and directories named like experiment outputs INSIDE a recorded version: %s" % msg,
+                      {"input": {"part": "gc-scope", "files": files, "commands": [["run", "//:all"], ["gc", "-v"]]}, "impl_observation": {"gc_output": implrun.strip_ansi(g.out)[-400:]}, "oracle_verdict": msg},
+                      match_key={"part": "gc-scope"}, size=3)
+    if not problems:
+        chk.coverage["traces_validated_against_impl"] = chk.coverage.get("traces_validated_against_impl", 0) + 1
+
+
 def read_only_outputs(chk):
     """A failed experiment left output that is not writable any more (a package cache it made read-only, a directory
     it chmod'ed to 000).  `cond gc` runs WITHOUT the capabilities that let root ignore permissions (the harness runs
@@ -546,6 +589,10 @@ def run(tier, seed, replay=None):
         rn.compare_with_model()
         return chk.finish()
 
+    import archive_util as au  # pylint: disable=import-outside-toplevel
+
+    recorded_versions_are_not_explored(chk)
+    au.equal_timestamps_across_tasks(chk, "C13")   # versions of different tasks that share a timestamp are all recorded versions
     # 1. corpus
     for i, (tree, rows) in enumerate(U.corpus()):
         rn.run_case(tree, rows, "corpus#%d" % i, True, "corpus")
